@@ -238,8 +238,8 @@ class Interp:
         # Box<T>/Reference<T> forwarding impls of local traits (Format for Box<T>): treated as transparent
         self.origin_params = ORIGIN_PARAMS
         self.pass2 = False
-        self._roles = {}
-        self._roles_busy = set()
+        self._roles = None
+        self._roles_done = False
 
     # ------------------------------------------------------------ summaries
     def summary(self, path):
@@ -277,64 +277,119 @@ class Interp:
             self.pass2 = False
 
     def _param_roles(self, b):
-        """A `usize` parameter that is added to a Reference's `.offset` (or passed on as such) is an accumulated origin of
-        the function's frame; a token-slice parameter that is indexed `tokens[origin..]` is the absolute token vector."""
-        key = b["p"]
-        if key in self._roles:
-            return self._roles[key]
-        c = b["_crate"]
-        ty = self.types[c.name]
-        nums, toks = {}, {}
-        for p in b["params"]:
-            if p.get("k") == "Binding":
+        """A `usize` parameter that is added to a Reference's `.offset` (or passed on as / bound to such a sum) is an
+        accumulated origin of the function's frame; a token-slice parameter that is indexed `tokens[origin..]` (or passed
+        on to / received from such a parameter) is the absolute token vector.  Computed once for the whole program as a
+        fixpoint over the call graph, so it does not depend on which helper the `+ r.offset` happens to live in."""
+        if self._roles is None or not self._roles_done:
+            self._compute_roles()
+        return self._roles.get(b["p"], {})
+
+    def _compute_roles(self):
+        self._roles = {}
+        self._roles_done = True
+        prog = self.prog
+        nums, toks, pidx = {}, {}, {}
+        bodies = [b for b in prog.bodies() if b.get("body") and b["k"] in ("fn", "assoc_fn")]
+        for b in bodies:
+            c = b["_crate"]
+            ty = self.types[c.name]
+            nums[b["p"]], toks[b["p"]] = set(), set()
+            pidx[b["p"]] = []
+            for p in b["params"]:
+                pid = p["id"] if p.get("k") == "Binding" else None
+                pidx[b["p"]].append(pid)
+                if pid is None:
+                    continue
                 t = c.tstr(p["bt"]).replace("&", "").strip()
                 if t == "usize":
-                    nums[p["id"]] = p
+                    nums[b["p"]].add(pid)
                 elif ty.cls(p["bt"]) == "toks":
-                    toks[p["id"]] = p
-        roles = {}
-        origin_ids = set()
-        for n in hir.nodes(b["body"], "Binary"):
-            if n["op"] != "+":
-                continue
-            sides = [hir.strip_ref(n["l"]), hir.strip_ref(n["r"])]
-            loc = [x for x in sides if x.get("k") == "Path" and x["res"].get("k") == "Local" and x["res"]["id"] in nums]
-            off = [x for x in sides if x.get("k") == "Field" and x["name"] == "offset" and ty.cls(x["base"]["t"]) == "ref"]
-            if loc and off:
-                origin_ids.add(loc[0]["res"]["id"])
-        for n in hir.nodes(b["body"], "Index"):
-            base = hir.strip_ref(n["base"])
-            idx = hir.strip(n["idx"])
-            if base.get("k") == "Path" and base["res"].get("k") == "Local" and base["res"]["id"] in toks and idx.get("k") == "Struct":
-                for f in idx["fields"]:
-                    v = hir.strip_ref(f["e"])
-                    if f["name"] == "start" and v.get("k") == "Path" and v["res"].get("k") == "Local" and v["res"]["id"] in nums:
-                        # tokens[offset..]: `offset` is an origin, `tokens` the absolute vector (only if offset is accumulated somewhere)
-                        if v["res"]["id"] in origin_ids or self._passed_accumulated(b, v["res"]["id"]):
-                            origin_ids.add(v["res"]["id"])
-                            roles[base["res"]["id"]] = AV("toks", Frame("abs"))
-        for i in origin_ids:
-            roles[i] = AV("orig", Frame("here"))
-        # a token parameter that is only handed on to functions of the same shape inherits the role (find_call_stmt -> .._in_stmt)
-        if origin_ids and not any(v.k == "toks" for v in roles.values()):
-            for tid in toks:
-                for call in hir.nodes(b["body"], "Call"):
-                    hb = hir.local_callee_body(self.prog, call)
-                    if hb is None or hb["p"] == b["p"]:
-                        continue
-                    hr = self._param_roles(hb) if hb["p"] not in self._roles_busy else {}
-                    for ai, a in enumerate(call["args"]):
-                        a_ = hir.strip_ref(a)
-                        if a_.get("k") == "Path" and a_["res"].get("k") == "Local" and a_["res"]["id"] == tid and ai < len(hb["params"]):
-                            pp = hb["params"][ai]
-                            if pp.get("k") == "Binding" and hr.get(pp["id"]) is not None and hr[pp["id"]].k == "toks":
-                                roles[tid] = AV("toks", Frame("abs"))
-        self._roles[key] = roles
-        return roles
+                    toks[b["p"]].add(pid)
+        origin = set()      # (fn path, param id)
+        abs_toks = set()
 
-    def _passed_accumulated(self, b, pid):
-        """is parameter `pid` bound, at some call site of b, to `x + r.offset`?"""
-        return False
+        def local_id(e):
+            e = hir.strip_ref(e)
+            if e.get("k") == "Path" and e["res"].get("k") == "Local":
+                return e["res"]["id"]
+            return None
+
+        def is_offset_sum(c, e):
+            e = hir.strip_ref(e)
+            if e.get("k") != "Binary" or e["op"] != "+":
+                return None
+            ty = self.types[c.name]
+            sides = [hir.strip_ref(e["l"]), hir.strip_ref(e["r"])]
+            off = [x for x in sides if x.get("k") == "Field" and x["name"] == "offset" and ty.cls(x["base"]["t"]) == "ref"]
+            if not off:
+                return None
+            other = [x for x in sides if x is not off[0]]
+            return other[0] if other else None
+
+        # seeds: p + r.offset inside the function
+        for b in bodies:
+            for n in hir.nodes(b["body"], "Binary"):
+                o = is_offset_sum(b["_crate"], n)
+                if o is not None and local_id(o) in nums[b["p"]]:
+                    origin.add((b["p"], local_id(o)))
+        calls = []
+        for b in bodies:
+            for call in hir.nodes(b["body"]):
+                if call.get("k") not in ("Call", "MethodCall"):
+                    continue
+                hb = hir.local_callee_body(prog, call)
+                if hb is None or hb["p"] not in pidx:
+                    continue
+                args = ([call["recv"]] if call.get("k") == "MethodCall" else []) + list(call["args"])
+                calls.append((b, hb, args))
+        changed = True
+        rounds = 0
+        while changed and rounds < 10:
+            changed = False
+            rounds += 1
+            for b, hb, args in calls:
+                hp = pidx[hb["p"]]
+                for i, a in enumerate(args):
+                    if i >= len(hp) or hp[i] is None:
+                        continue
+                    lid = local_id(a)
+                    if hp[i] in nums[hb["p"]]:
+                        key = (hb["p"], hp[i])
+                        if key not in origin:
+                            # upward: bound to `x + r.offset` or to an origin of the caller
+                            if is_offset_sum(b["_crate"], a) is not None or (lid is not None and (b["p"], lid) in origin):
+                                origin.add(key)
+                                changed = True
+                        if key in origin and lid in nums[b["p"]] and (b["p"], lid) not in origin:
+                            # downward: handed on unchanged to an origin parameter
+                            origin.add((b["p"], lid))
+                            changed = True
+                    elif hp[i] in toks[hb["p"]]:
+                        key = (hb["p"], hp[i])
+                        if lid in toks[b["p"]]:
+                            ck = (b["p"], lid)
+                            if key in abs_toks and ck not in abs_toks:
+                                abs_toks.add(ck)
+                                changed = True
+                            elif ck in abs_toks and key not in abs_toks:
+                                abs_toks.add(key)
+                                changed = True
+            # tokens[origin..]
+            for b in bodies:
+                for n in hir.nodes(b["body"], "Index"):
+                    bid = local_id(n["base"])
+                    idx = hir.strip(n["idx"])
+                    if bid in toks[b["p"]] and idx.get("k") == "Struct":
+                        for f in idx["fields"]:
+                            vid = local_id(f["e"])
+                            if f["name"] == "start" and vid in nums[b["p"]] and (b["p"], vid) in origin and (b["p"], bid) not in abs_toks:
+                                abs_toks.add((b["p"], bid))
+                                changed = True
+        for fp, pid in origin:
+            self._roles.setdefault(fp, {})[pid] = AV("orig", Frame("here"))
+        for fp, pid in abs_toks:
+            self._roles.setdefault(fp, {})[pid] = AV("toks", Frame("abs"))
 
     def _returns_identifier(self, b):
         if "sig_out" not in b:
